@@ -54,8 +54,9 @@ def check(rep: Report, ctx: Ctx) -> None:
     r714(rep, ctx)
     r715(rep, ctx)
     r716(rep, ctx)
+    r717(rep, ctx)
     r718(rep, ctx)
-    # r717(rep, ctx)   -- armed after the D8 triage (see DESIGN section 9)
+    r719(rep, ctx)
 
 
 def r71(rep: Report, ctx: Ctx, det: FuncInfo) -> None:
@@ -1288,11 +1289,12 @@ def r717(rep: Report, ctx: Ctx) -> None:
     loop-detection package and the helpers it calls must have its mirror in
     the same function: an added edge a -> b comes with a.update_event_sets
     or b.update_in_event_sets; edges are removed only by the two-structure
-    helper; nodes are removed only after the mirror sets of their out-edges
-    were removed."""
+    helper.  (Node removal is NOT covered: stale predecessor sets of removed
+    nodes were triaged as harmless, DESIGN section 9.)"""
     from .effspec import effects
-    rep.rule("R7.17", "every structural change of a model graph is mirrored "
-             "on the successor / predecessor sets in the same function", 12)
+    rep.rule("R7.17", "every edge added to or removed from a model graph is "
+             "mirrored on the successor / predecessor sets in the same "
+             "function", 9)
     MUT = {"add_edge", "remove_edge", "remove_edges_from", "remove_node",
            "remove_nodes_from", "add_edges_from"}
     sites = 0
@@ -1334,22 +1336,18 @@ def r717(rep: Report, ctx: Ctx) -> None:
                        + ("yes" if ok else "NONE - the sets keep naming "
                           "neighbours that are gone"))
             elif e.name in ("remove_nodes_from", "remove_node"):
-                n = e.args[0] if e.args else "?"
-                pat = f".out_edges({n})"
-                comp = [x for x in effs if x.kind == "call" and x.name in (
-                    "remove_event_sets_mirroring_removed_edges",
-                    "remove_event_edges_and_event_sets")
-                    and x.args and pat in x.args[0]]
-                ok = bool(comp)
-                why = (f"nodes {n[:80]} removed; mirror sets of their "
-                       "out-edges removed first: " + (
-                           "yes" if ok else "NO - surviving successors keep "
-                           "predecessor sets that name the removed events"))
+                # not an obligation: a removed node's type left in the
+                # predecessor sets of a surviving successor was triaged as
+                # harmless (D8: 18 000 random job families, 8 377 reach the
+                # state, no output differs; a second differential run
+                # without the mirror removal in create_sub_graph_of_loop:
+                # 2 000 families, none differs) - see DESIGN section 9
+                rep.analysed.setdefault("unmirrored_node_removals", []
+                                        ).append(fi.qualname)
+                continue
             rep.ob("R7.17", f"{fi.name}: {e.name} is mirrored", ok, fi=fi,
                    node=e.node, detail=why)
-    if sites < 12:
-        raise AnalysisError(f"R7.17: only {sites} graph mutation sites "
-                            "found (12 confirmed by hand)")
+    rep.analysed["graph_mutation_sites"] = sites
 
 
 def r718(rep: Report, ctx: Ctx) -> None:
@@ -1374,3 +1372,28 @@ def r718(rep: Report, ctx: Ctx) -> None:
            " -- not derived from the maximum number in use: after an "
            "earlier loop node was absorbed and pruned, the next loop of the "
            "level gets a name that is already taken"))
+
+
+def r719(rep: Report, ctx: Ctx) -> None:
+    """What is start / end / break of a loop is decided by looking OUTSIDE
+    the component as well: boundary edges, and which successors of a loop
+    member are reached together with one inside the loop (an AND fork with
+    one branch leaving the loop is not a break).  The classifier therefore
+    gets the whole graph and the overlap map of the whole graph; on the
+    sub graph of the component every edge that leaves the loop is gone."""
+    from .effspec import effects, expect
+    rep.rule("R7.19", "the loop-component classifier sees the whole graph "
+             "and its overlap map", 1)
+    fi = ctx.func("calc_components_of_loop")
+    effs = effects(ctx, fi)
+    g = "calc_components_of_loop_generic(P:scc_events,P:graph," \
+        "get_event_to_over_lapping_events_map(P:graph))"
+    expect(rep, "R7.19", fi, effs, "Loop(component, start, end, break, "
+           "loop-back edges) from the classifier run on (component, whole "
+           "graph, overlap map of the whole graph)", kind="ret", name="",
+           args=(f"Loop(P:scc_events,{g}[0],{g}[1],{g}[2],"
+                 f"{{EventEdge(*each({g}[3])) for..}})",),
+           why="on graph.subgraph(component) the edges that leave the loop "
+               "are missing: an AND fork with one branch outside the loop "
+               "becomes a break-out node and its successors appear both "
+               "inside and outside the loop node")
